@@ -377,34 +377,8 @@ def _rest(db, rep):
         r3.ok('flags', 'changed only through CreateGuard()')
 
     # ------------------------------------------------------------------ r4
-    r4 = rep.rule('r4', 'RESULTS: declared arguments are filled only in ViFunctionDefinition from the collected argument ids', 1)
-    writers = set()
-    for f in db.methods_of(TA):
-        for n in f.calls():
-            if n['k'] == 'CXXMemberCallExpr' and 'obj' in n and (n.get('cs') or '').split('::')[-1] in ('emplace_back', 'push_back') and f.strip(f.stmts[n['obj']]).get('member') == 'functionArgs':
-                writers.add(f.name.split('::')[-1])
-    if writers == {'ViFunctionDefinition'}:
-        r4.ok('functionArgs', 'filled only in ViFunctionDefinition')
-    else:
-        r4.violation('functionArgs', TA, 'declared arguments are filled in %s' % sorted(writers))
-
-    # the argument records are read by index into localVars: the copy must happen before the body is checked, because checking the body can
-    # remove closed local variables (ClearLocalVariables in the type deduction of a recursion) and shift the indices
-    fd = [f for f in db.methods_of(TA) if f.name.endswith('::ViFunctionDefinition') and f.has_cfg()]
-    if fd:
-        f = fd[0]
-        fills = [f.position_of(n) for n in f.calls() if n['k'] == 'CXXMemberCallExpr' and 'obj' in n and f.strip(f.stmts[n['obj']]).get('member') == 'functionArgs'
-                 and (n.get('cs') or '').split('::')[-1] in ('emplace_back', 'push_back')]
-        body = [f.position_of(n) for n in f.calls() if (n.get('cs') or '').split('::')[-1] in ('ChildType', 'VisitChild') and len(n.get('args', [])) >= 2
-                and f.strip(f.stmts[n['args'][1]]).get('cv', f.strip(f.stmts[n['args'][1]]).get('txt')) in (1, '1')]
-        fills = [p for p in fills if p is not None]
-        body = [p for p in body if p is not None]
-        if not fills or not body:
-            r4.broken('ViFunctionDefinition: argument copy or body check not recognised')
-        elif any(p in f.reach(b) for b in body for p in fills):
-            r4.violation('functionArgs:before-body', '%s:%d' % (f.file, f.line), 'the declared arguments are copied (by index into localVars) after the body was checked: a recursion in the body clears closed local variables and the indices then denote other variables - the reported argument list is shifted')
-        else:
-            r4.ok('functionArgs:before-body', 'arguments are copied before the body is checked', '%s:%d' % (f.file, f.line))
+    r4 = rep.rule('r4', 'RESULTS: the declared argument list reported for a function definition is exactly the declared (name, domain type) pairs in order - the argument visitors and the scope functions interpreted on argument lists whose domains open and close scopes of their own', 1)
+    declared_args_rule(db, r4)
 
     # ------------------------------------------------------------------ r5
     r5 = rep.rule('r5', 'KINDS: CstType predicate tables partition the kinds consistently and CheckConstituenta enforces base/empty, callable/arguments, logical/typed', 4)
@@ -721,8 +695,7 @@ def scope_rules(db, rule):
             r, log = run('AddLocalVariable', th, [b'c', 'T1', 7])
             if r is not True or log or len(th['localVars']) != 2 or sig(th['localVars'][1]) != sig(mk(0, 0, True, b'c', 'T1')) or sig(th['localVars'][0]) != sig(mk(level, use, en)):
                 bad('AddLocalVariable', 'a fresh name must be appended as (type, level 0, unused, visible) leaving the others alone (%s): %s' % (ctx, [sig(x) for x in th['localVars']]))
-            if (th['functionArgsID'] == [1]) != argdecl:
-                bad('AddLocalVariable', 'the index of the new variable must be recorded as a function argument exactly in argument-declaration mode (%s)' % ctx)
+            # (how declared arguments are collected is decided on the observable result by r4, not here)
             # ---- scopes
             counts['StartScope'] = counts.get('StartScope', 0) + 1
             th = state(nowarn, argdecl, [mk(level, use, en), mk(0, 1, True, b'b')])
@@ -1384,3 +1357,154 @@ def recursion_typing(db, rule):
         rule.violation('ViRecursion', '%s:%d' % (f.file, f.line), bad)
     else:
         rule.ok('ViRecursion', 'type deduction by iteration agrees with the reference on %d (initial type, step-type function) cases' % cases, '%s:%d' % (f.file, f.line))
+
+
+def declared_args_rule(db, rule):
+    """TypeAuditor::ViFunctionDefinition / ViArgument / ViLocal / AddLocalVariable / StartScope / EndScope interpreted from their source on
+    argument lists whose domains contain closed binders (D{b∈X1 | ...}) that re-use later argument names, several bound variables, and a
+    body that declares locals: the reported argument list must be exactly the declared (name, domain type) pairs in order. Supplied: the
+    cursor (which child is which), the type of a domain / body after its own scopes were opened and closed through the interpreted scope
+    functions, and the RAII release of the declaration-mode guards."""
+    from engine.evalmini import Obj, NOT_HANDLED, UNKNOWN
+    TA = R + 'TypeAuditor'
+    need = {}
+    for m in ('ViFunctionDefinition', 'ViArgument', 'ViLocal', 'AddLocalVariable', 'StartScope', 'EndScope'):
+        c = [g for g in db.methods_of(TA) if g.name.endswith('::' + m) and g.has_cfg()]
+        if len(c) != 1:
+            rule.broken('anchor vanished: TypeAuditor::%s' % m)
+            return
+        need[m] = c[0]
+    rec = db.record(TA)
+    EID = {v: k for k, v in enum_values(db, R + 'SemanticEID').items()}
+
+    def scenario(args, body_binders):
+        """args: [(name, [names bound and closed inside the domain], type)]"""
+        log = []
+        this = Obj(__cls__=TA, currentType=None, localVars=[], functionArgs=[], noWarnings=Obj(value=False, guardCounter=0),
+                   isArgDeclaration=Obj(value=False, guardCounter=0), isLocalDeclaration=Obj(value=False, guardCounter=0), isFuncDeclaration=Obj(value=False, guardCounter=0),
+                   isTypification=False, reporter=None, env=Obj(context=Obj()))
+        for fld in rec['fields']:
+            if fld['name'] not in this:
+                this[fld['name']] = [] if 'vector' in fld.get('type', '') else UNKNOWN
+        flags = ('isArgDeclaration', 'isLocalDeclaration', 'isFuncDeclaration', 'noWarnings')
+
+        def snap():
+            return {k: this[k]['guardCounter'] for k in flags if isinstance(this.get(k), Obj)}
+
+        def restore(s_):
+            for k, v in s_.items():
+                this[k]['guardCounter'] = v
+
+        def closed_binders(it, names, pos):
+            for nm in names:
+                it.call(need['StartScope'], [], this)
+                s_ = snap()
+                this['isLocalDeclaration']['guardCounter'] += 1
+                it.call(need['AddLocalVariable'], [nm.encode(), 'T_' + nm, pos], this)
+                restore(s_)
+                it.call(need['EndScope'], [pos], this)
+
+        def on_call(it, fn, n, env):
+            cs = n.get('cs') or ''
+            last = cs.split('::')[-1]
+            Sx = fn.stmts
+            ev = lambda sid: it.eval(fn, Sx[sid], env)
+            if last == 'CreateGuard' and 'obj' in n:
+                o = ev(n['obj'])
+                o['guardCounter'] += 1
+                return Obj(__kind__='guard')
+            if last == 'OnError' and cs.startswith(TA):
+                log.append(EID.get(ev(n['args'][0]), '?'))
+                return None
+            if last == 'SetCurrent' and cs.startswith(TA):
+                this['currentType'] = ev(n['args'][0])
+                return True
+            if last in ('VisitChild', 'ChildType', 'ChildTypeDebool') and (cs.startswith(TA) or 'ASTVisitor' in cs):
+                cur = ev(n['args'][0])
+                k_ = ev(n['args'][1])
+                if cur['kind'] == 'FUNC' and k_ == 0:
+                    s_ = snap()
+                    ok = True
+                    for i, (nm, binders, typ) in enumerate(args):
+                        s2 = snap()
+                        r_ = it.call(need['ViArgument'], [Obj(kind='ARG', index=i, pos=10 * (i + 1))], this)
+                        restore(s2)
+                        if not r_:
+                            ok = False
+                            break
+                    restore(s_)
+                    this['isFuncDeclaration']['guardCounter'] = max(0, this['isFuncDeclaration']['guardCounter'] - 1)    # the block-scoped guard ends with the block
+                    return ok
+                if cur['kind'] == 'FUNC' and k_ == 1:
+                    closed_binders(it, body_binders, 900)
+                    this['currentType'] = 'T_body'
+                    return 'T_body'
+                if cur['kind'] == 'ARG' and k_ == 1:
+                    nm, binders, typ = args[cur['index']]
+                    closed_binders(it, binders, cur['pos'] + 5)
+                    this['currentType'] = typ
+                    return typ
+                if cur['kind'] == 'ARG' and k_ == 0:
+                    return it.call(need['ViLocal'], [Obj(kind='LOCAL', index=cur['index'], pos=cur['pos'])], this)
+                raise OutOfFragment('unexpected child visit %s/%s' % (cur['kind'], k_))
+            if n['k'] == 'CXXOperatorCallExpr' and n.get('op') == '->' and 'Cursor' in Sx[n['args'][0]].get('t', ''):
+                cur = ev(n['args'][0])
+                nm = args[cur['index']][0].encode() if cur.get('kind') in ('LOCAL', 'ARG') else b''
+                return ('ptr', Obj(pos=Obj(start=cur.get('pos', 0), finish=cur.get('pos', 0) + 1), id=0, data=Obj(__kind__='data', text=nm)))
+            if n['k'] == 'CXXOperatorCallExpr' and n.get('op') == '()' and 'Cursor' in Sx[n['args'][0]].get('t', ''):
+                cur = ev(n['args'][0])
+                if cur.get('kind') == 'ARG':
+                    return Obj(pos=Obj(start=cur['pos'], finish=cur['pos'] + 1), id=0, data=Obj(__kind__='data', text=args[cur['index']][0].encode()))
+                raise OutOfFragment('cursor child of %s' % cur.get('kind'))
+            if last == 'ChildrenCount' and 'Cursor' in cs:
+                return 2
+            if last == 'ToText' and 'obj' in n:
+                o = ev(n['obj'])
+                if isinstance(o, Obj) and 'text' in o:
+                    return o['text']
+            if cs == 'std::get' and n.get('args'):
+                return ev(n['args'][0])
+            if last == 'emplace_back' and cs.startswith('std::vector::') and len(n.get('args', [])) == 2 and 'obj' in n:
+                o = ev(n['obj'])
+                a0, a1 = ev(n['args'][0]), ev(n['args'][1])
+                o.append(Obj(name=a0, type=a1))
+                return None
+            if n['k'] in ('CXXConstructExpr', 'CXXTemporaryObjectExpr') and (n.get('cls') or '').endswith('LogicT'):
+                return 'LOGIC'
+            return NOT_HANDLED
+        it = Interp(db, on_call=on_call, max_steps=400000)
+        ok = it.call(need['ViFunctionDefinition'], [Obj(kind='FUNC', pos=0)], this)
+        got = []
+        for a in this['functionArgs']:
+            got.append((bytes(a['name']).decode() if isinstance(a.get('name'), (bytes, bytearray)) else a.get('name'), a.get('type')))
+        return bool(ok), got, log
+    cases = [
+        ([('a', [], 'TA'), ('b', [], 'TB')], []),
+        ([('a', ['b'], 'TA'), ('b', [], 'TB')], []),
+        ([('a', ['t'], 'TA'), ('b', [], 'TB'), ('c', ['x'], 'TC')], []),
+        ([('a', ['x', 'y', 'z'], 'TA'), ('b', [], 'TB')], []),
+        ([('a', ['c'], 'TA'), ('b', ['c'], 'TB'), ('c', [], 'TC')], ['q']),
+        ([('a', [], 'TA')], ['a2', 'b2']),
+    ]
+    bad = None
+    try:
+        for args, body in cases:
+            ok, got, log = scenario(args, body)
+            want = [(nm, typ) for nm, _, typ in args]
+            desc = '[' + ', '.join('%s∈%s' % (nm, ('D{%s∈…}' % ','.join(b)) if b else typ) for nm, b, typ in args) + ']'
+            if not ok:
+                bad = bad or 'the definition with arguments %s is rejected (%s)' % (desc, log)
+            elif got != want:
+                bad = bad or 'the definition with arguments %s reports the declared arguments %s; they are %s' % (desc, got, want)
+    except OutOfFragment as e:
+        msg = str(e)
+        if 'out of range' in msg:
+            bad = 'collecting the declared arguments faults: %s' % msg
+        else:
+            rule.broken('ViFunctionDefinition outside the evaluable fragment: %s' % e)
+            return
+    f = need['ViFunctionDefinition']
+    if bad:
+        rule.violation('declared-arguments', '%s:%d' % (f.file, f.line), bad)
+    else:
+        rule.ok('declared-arguments', '%d argument lists (domains with closed binders re-using argument names, bodies declaring locals): reported = declared, in order' % len(cases), '%s:%d' % (f.file, f.line))
